@@ -383,6 +383,12 @@ class Evaluator(object):
                     raise PyRaise('pop failed: %r' % (e,), type(e).__name__, e)
             if isinstance(recv, Opaque):
                 return Opaque('%s.%s(...)' % (recv.what, f.attr), n)
+        if not isinstance(f, (ast.Name, ast.Attribute)):
+            tgt_ = self.ev(f, loc)
+            if isinstance(tgt_, Native):
+                return tgt_.fn(*args, **kw)
+            if isinstance(tgt_, ast.FunctionDef):
+                return self.call_user(tgt_, args, kw)
         if self.opaque_names:
             return Opaque('call:%s' % ast.unparse(f), n)
         raise NotConst('call %s' % ast.unparse(f))
@@ -538,6 +544,9 @@ class Evaluator(object):
             raise NotConst('expression statement')
         elif isinstance(st, (ast.Pass, ast.Import, ast.ImportFrom)):
             return
+        elif isinstance(st, ast.FunctionDef):
+            # a local helper: callable by name from the enclosing body (it sees the module environment, not the enclosing locals)
+            scope[st.name] = st
         elif isinstance(st, ast.Return):
             raise _Return(self.ev(st.value, loc) if st.value is not None else None)
         elif isinstance(st, ast.Raise):
